@@ -112,21 +112,25 @@ SPECS = {
                        shards(6, 25) + shards(2, 25, prof="liq"), shards(12, 150) + shards(4, 150, prof="liq")),
     "C03": engine_spec("C03", r"bal\.", shards(4, 25, "cw20") + shards(4, 25, "native"), shards(8, 150, "cw20") + shards(8, 150, "native")),
     "C04": engine_spec("C04", r"(bal\.|p\d+\.\d+|e\.baddebt|v\d+\.(q|b|cpf))",
-                       shards(6, 25) + shards(2, 25, prof="funding"), shards(12, 150) + shards(4, 150, prof="funding")),
+                       shards(4, 25) + shards(2, 25, prof="funding") + shards(2, 25, prof="pcf"), shards(10, 150) + shards(3, 150, prof="funding") + shards(3, 150, prof="pcf")),
     "C05": engine_spec("C05", r"(bal\.|p\d+\.\d+|e\.(init|maint))", shards(8, 25), shards(16, 150)),
     "C06": engine_spec("C06", r"(bal\.|p\d+\.\d+|e\.(maint|liqfee|plr|baddebt)|v\d+\.(overspread|q|b))",
                        shards(8, 25, prof="liq"), shards(16, 150, prof="liq")),
     "C07": engine_spec("C07", r"(p\d+\.\d+|e\.|v\d+\.(overspread|uprice|open)|if\.)",
                        shards(6, 25, prof="liq") + shards(2, 20, "-", "real", "liq"), shards(12, 150, prof="liq") + shards(4, 100, "-", "real", "liq")),
-    "C10": engine_spec("C10", r"p\d+\.\d+", shards(8, 25), shards(16, 150)),
+    "C10": Spec("C10", [Family("engine", shards(7, 25), shards(14, 150)), fam("forge", 6, 40)],
+                merged((("engine", "forge"), mon_engine.monitor_for("C10"))),
+                ENGINE_RULE + "; plus the key-collision scenario: position keys are sha3(vamm || trader) without separator, an account whose address is a suffix of a trader's address "
+                "calls every position-touching entry point naming a forged vAMM string that completes the collision",
+                r"p\d+\.\d+"),
     "C11": engine_spec("C11", r"(v\d+\.(cpf|nextfund|twap|utwap|total|frate|ncpf)|bal\.(2|3)$|p\d+\.\d+\.(lupf|margin))",
-                       shards(8, 25, prof="funding"), shards(16, 150, prof="funding")),
+                       shards(6, 25, prof="funding") + shards(2, 25, prof="pcf"), shards(12, 150, prof="funding") + shards(4, 150, prof="pcf")),
     "C12": engine_spec("C12", r"(bal\.|v\d+\.(toll|spread))", shards(8, 25), shards(16, 150)),
-    "C16": engine_spec("C16", r"(v\d+\.lrb|p\d+\.\d+\.block|p\d+\.\d+$)", shards(8, 25, prof="liq"), shards(16, 150, prof="liq")),
+    "C16": engine_spec("C16", r"(v\d+\.lrb|p\d+\.\d+\.block|p\d+\.\d+$)", shards(3, 25, prof="liq") + shards(5, 25, prof="c16"), shards(6, 150, prof="liq") + shards(10, 150, prof="c16")),
     "C20": engine_spec("C20", r"(e\.(init|maint|plr|liqfee|oi|wl)|v\d+\.(toll|spread|fluct|twapint|holdcap|oicap|dec)|if\.|p\d+\.\d+\.size)",
                        shards(8, 25, prof="caps"), shards(16, 150, prof="caps")),
     "C15": engine_spec("C15", r"(v\d+\.(q|b|spot|s0|s1|fluct|snaps)|p\d+\.\d+(\.size)?$|e\.plr)",
-                       shards(8, 25, prof="fluct"), shards(16, 150, prof="fluct")),
+                       shards(6, 25, prof="fluct") + shards(2, 25, prof="pcf"), shards(12, 150, prof="fluct") + shards(4, 150, prof="pcf")),
     "C14": Spec("C14", [Family("engine", shards(4, 25, prof="pause"), shards(12, 150, prof="pause")), fam("c14", 6, 30)],
                 merged((("engine", "c14"), mon_engine.monitor_for("C14"))),
                 ENGINE_RULE + "; plus the exhaustive matrix paused x open x registered x every engine operation and shutdown from every subset of already-closed vAMMs (1-3 registered)",
